@@ -345,9 +345,11 @@ package keeper
 //@ modifies oracle.Query, oracle.Aggregates, oracle.Nonces, bank.bal, reporter.SelectorTips, H_*, A_*
 //@ ensures [closed_rounds_with_reports_disappear] err == nil ==> forall q bytes :: forall i int :: old(has(oracle.Query, pair(q, i))) && old(closed(q, i)) ==> !has(oracle.Query, pair(q, i))
 //@ ensures [other_rounds_are_untouched] forall q bytes :: forall i int :: !(old(has(oracle.Query, pair(q, i))) && old(closed(q, i))) ==> (has(oracle.Query, pair(q, i)) <==> old(has(oracle.Query, pair(q, i)))) && round(q, i) == old(round(q, i))
+//@ ensures [mode_is_used_for_all_other_rounds] called(WeightedMode) ==> len(arg(WeightedMode, reports)) > 0 && arg(WeightedMode, reports)[0].AggregateMethod != "weighted-median"
 //@ loop 0 "for ; idsIterator.Valid(); idsIterator.Next()"
 //@ loop 0 invariant [rounds_still_to_visit_are_as_on_entry] forall j in [itpos(idsIterator), itlen(idsIterator)) :: has(oracle.Query, itkey(idsIterator, j)) && oracle.Query[itkey(idsIterator, j)] == old(oracle.Query[itkey(idsIterator, j)])
 //@ loop 0 invariant [visited_closed_rounds_are_gone] forall j in [0, itpos(idsIterator)) :: old(oracle.Query[itkey(idsIterator, j)]).Expiration <= blockheight(ctx) ==> !has(oracle.Query, itkey(idsIterator, j))
 //@ loop 0 invariant [only_visited_closed_rounds_changed] forall q bytes :: forall i int :: !(old(has(oracle.Query, pair(q, i))) && old(closed(q, i))) ==> (has(oracle.Query, pair(q, i)) <==> old(has(oracle.Query, pair(q, i)))) && round(q, i) == old(round(q, i))
 //@ loop 0 invariant [reports_untouched] oracle.Reports == old(oracle.Reports)
+//@ loop 0 invariant [mode_is_used_for_all_other_rounds] called(WeightedMode) ==> len(arg(WeightedMode, reports)) > 0 && arg(WeightedMode, reports)[0].AggregateMethod != "weighted-median"
 //@ loop 0 invariant [payees_present] forall j in [0, len(reportersToPay)) :: allocated(reportersToPay[j]) && allocated(reportersToPay[j].Reporters)
